@@ -909,11 +909,12 @@ class Analysis:
             b_ex = b.slo is not None and b.slo == b.shi
             if a_ex and b_ex and not (a.slo.is_const() and b.slo.is_const()):
                 st.add_fact(b.slo - a.slo - d)      # the relation itself, as a path fact
-                if len(a.slo.t) == 1 and a.slo.c == 0:
+                if len(a.slo.t) == 1:
                     (at, k), = a.slo.t
                     info = self.loop_atom_info.get(at) if k == 1 else None
-                    if info is not None and at in self.induction_atoms and info.get("hi") is None and d == 1:
-                        info["hi"] = b.slo - 1   # while A < B: inside the body A <= B - 1
+                    if info is not None and at in self.induction_atoms and info.get("hi") is None and d == 1 \
+                            and all(bt != at for bt, _ in b.slo.t):
+                        info["hi"] = b.slo - 1 - a.slo.c   # while A + c < B: inside the body A <= B - 1 - c
             na = a.with_(nhi=min(a.nhi, b.nhi - d),
                          shi=a.shi if a_ex else self._choose_hi(a.shi, (b.shi - d) if b.shi is not None else None, rng))
             nb = b.with_(nlo=max(b.nlo, a.nlo + d),
@@ -950,6 +951,15 @@ class Analysis:
                 if d.is_const() and d.c != 0:
                     return False
                 slo = shi = ea
+                # `assert_eq!(param, expr)`: a bare entry atom that must equal another exact form is replaced by that form
+                # (later reads of the parameter then carry the relation), and the equality is kept as two path facts
+                bare = lambda e: len(e.t) == 1 and e.c == 0 and e.t[0][1] == 1 and e.t[0][0] not in self.loop_atom_info
+                if bare(ea) and all(at != ea.t[0][0] for at, _ in eb.t):
+                    order = list(self.atoms)
+                    if not bare(eb) or order.index(ea.t[0][0]) > order.index(eb.t[0][0]):
+                        slo = shi = eb          # of two bare atoms the one created later (a parameter) is eliminated
+                st.add_fact(ea - eb)
+                st.add_fact(eb - ea)
             if not self.refine_atom_from(st, a, lo=lo, hi=hi):
                 return False
             if not self.refine_atom_from(st, b, lo=lo, hi=hi):
@@ -1620,7 +1630,15 @@ class Analysis:
             lo, hi = ty_range(bits, signed)
             never = (r.nhi < lo or r.nlo > hi)
             ov = BoolV(not ok, not never)
-            return AggV("tuple", None, [wrap(r, bits, signed) if ok else self._wrapped(r, bits, signed), ov])
+            if ok:
+                val = wrap(r, bits, signed)
+            elif never:
+                val = self._wrapped(r, bits, signed)
+            else:
+                # rustc reads `.0` only on the success edge of the Assert(Overflow) that follows: there the value is the
+                # mathematical result, inside the type's range
+                val = r.with_(nlo=max(r.nlo, lo), nhi=min(r.nhi, hi))
+            return AggV("tuple", None, [val, ov])
         if base == "Shl" and not fits(r, bits, signed):
             return IntV.top(bits, signed)
         if not fits(r, bits, signed):
@@ -1814,16 +1832,25 @@ class Analysis:
             return out
 
         def root_local(blk, upto, o):
-            """the user local an operand copies, following temporaries defined earlier in the same block"""
+            """the user local an operand copies, following temporaries defined earlier in the same block (or, when a call
+            such as `self.width()` splits the comparison, in the chain of unique predecessor blocks)"""
             seen = 0
             while isinstance(o, dict) and o.get("o") in ("copy", "move") and not o["proj"] and seen < 8:
                 seen += 1
                 l = o["l"]
                 d = None
-                for s_ in blk["stmts"][:upto]:
-                    if s_["s"] == "assign" and s_["lhs"]["l"] == l and not s_["lhs"]["proj"]:
-                        d = s_
-                if d is None or d["rv"]["r"] != "use":
+                cur, lim, hops = blk, upto, 0
+                while True:
+                    for s_ in cur["stmts"][:lim]:
+                        if s_["s"] == "assign" and s_["lhs"]["l"] == l and not s_["lhs"]["proj"]:
+                            d = s_
+                    if d is not None or fn.locals[l].get("user") or hops >= 3:
+                        break
+                    ps = [p_ for p_ in cfg.pred[cur["i"]] if not fn.blocks[p_]["cleanup"]]
+                    if len(ps) != 1 or (fn.blocks[ps[0]]["term"].get("dest") or {}).get("l") == l:
+                        break
+                    cur, lim, hops = fn.blocks[ps[0]], None, hops + 1
+                if d is None or d["rv"]["r"] != "use" or d["rv"]["a"].get("proj"):
                     return l
                 o = d["rv"]["a"]
             return None
@@ -1853,6 +1880,21 @@ class Analysis:
                 for i_, s_ in enumerate(blk["stmts"]):
                     if s_["s"] == "assign" and s_["lhs"]["l"] == d and not s_["lhs"]["proj"] and s_["rv"]["r"] == "binop" and s_["rv"]["op"] == "Lt":
                         il = root_local(blk, i_, s_["rv"]["a"])
+                        if il is not None and not fn.locals[il].get("user"):
+                            # `i + c < B`: the compared temporary is i plus a constant (checked-add lowering included)
+                            for b3 in body:
+                                for s3 in fn.blocks[b3]["stmts"]:
+                                    if s3["s"] == "assign" and s3["lhs"]["l"] == il and not s3["lhs"]["proj"] and s3["rv"]["r"] == "use" \
+                                            and [e.get("p") for e in s3["rv"]["a"].get("proj", [])] == ["field"]:
+                                        tl3 = s3["rv"]["a"]["l"]
+                                        for b4 in body:
+                                            for i4, s4 in enumerate(fn.blocks[b4]["stmts"]):
+                                                if s4["s"] == "assign" and s4["lhs"]["l"] == tl3 and s4["rv"]["r"] == "binop" and \
+                                                        s4["rv"]["op"] == "AddWithOverflow" and s4["rv"]["b"].get("o") == "const":
+                                                    il = root_local(fn.blocks[b4], i4, s4["rv"]["a"])
+                                    elif s3["s"] == "assign" and s3["lhs"]["l"] == il and not s3["lhs"]["proj"] and s3["rv"]["r"] == "binop" \
+                                            and s3["rv"]["op"] in ("Add", "AddUnchecked") and s3["rv"]["b"].get("o") == "const":
+                                        il = root_local(fn.blocks[b3], fn.blocks[b3]["stmts"].index(s3), s3["rv"]["a"])
                         bo = s_["rv"]["b"]
                         bl = root_local(blk, i_, bo) if bo.get("o") in ("copy", "move") else "const"
                         if il is not None and bl is not None:
